@@ -659,7 +659,7 @@ func c12BBoxQuadrants(r *run.Run) {
 func c12BBoxCurves(r *run.Run) {
 	ctrl := [][2]float64{{0, 100}, {100, 100}, {-50, 40}, {150, -60}, {30, 0}, {70, 0}}
 	r.Explore(explore.Config{Name: "C12.bbox-curves"},
-		"simple and CID-keyed CFF fonts with a glyph made of one curve from (0,0) to (100,0) with both control points from {(0,100), (100,100), (-50,40), (150,-60), (30,0), (70,0)} (bulging up, down, left and right of the chord, or flat), optionally closed by a line, at 3 offsets: GlyphBBox, FontBBox and the head box contain the curve's true extrema and lie inside the box of the control points; FontBBoxPDF agrees with FontBBox",
+		"simple and CID-keyed CFF fonts with a glyph made of one curve from (0,0) to (100,0) with both control points from {(0,100), (100,100), (-50,40), (150,-60), (30,0), (70,0)} (bulging up, down, left and right of the chord, or flat), optionally behind a line, at 3 offsets, with 1000 or 2048 units per em: GlyphBBox, FontBBox and the head box contain the curve's true extrema and lie inside the box of the control points; FontBBoxPDF and GlyphBBoxPDF agree with them after scaling",
 		func(c *explore.Ctx) {
 			kind := 1 + c.Choose(2, "outline kind")
 			c1 := ctrl[c.Choose(len(ctrl), "first control point")]
@@ -671,13 +671,24 @@ func c12BBoxCurves(r *run.Run) {
 			n := len(ol.Glyphs)
 			px := [4]float64{off, off + c1[0], off + c2[0], off + 100}
 			py := [4]float64{off, off + c1[1], off + c2[1], off}
+			lineFirst := c.Bool("a line before the curve")
 			for i := range ol.Glyphs {
 				g := cff.NewGlyph(ol.Glyphs[i].Name, ol.Glyphs[i].Width)
-				g.MoveTo(px[0], py[0])
+				if lineFirst {
+					// (the line lies on the chord: the extent of the outline is that of the curve)
+					g.MoveTo(px[0]+50, py[0])
+					g.LineTo(px[0], py[0])
+				} else {
+					g.MoveTo(px[0], py[0])
+				}
 				g.CurveTo(px[1], py[1], px[2], py[2], px[3], py[3])
 				ol.Glyphs[i] = g
 			}
 			f.Outlines = &ol
+			if c.Bool("2048 units per em") {
+				f.UnitsPerEm = 2048
+				f.FontMatrix = matrix.Matrix{1.0 / 2048, 0, 0, 1.0 / 2048, 0, 0}
+			}
 			_ = spec
 			extrema := func(p [4]float64) (lo, hi float64) {
 				lo, hi = math.Min(p[0], p[3]), math.Max(p[0], p[3])
@@ -707,7 +718,7 @@ func c12BBoxCurves(r *run.Run) {
 			}
 			hxlo, hxhi := hull(px)
 			hylo, hyhi := hull(py)
-			desc := fmt.Sprintf("%s, curve (%v,%v) (%v,%v) (%v,%v) (%v,%v)", gen.KindNames[kind], px[0], py[0], px[1], py[1], px[2], py[2], px[3], py[3])
+			desc := fmt.Sprintf("%s, %d units per em, line first %v, curve (%v,%v) (%v,%v) (%v,%v) (%v,%v)", gen.KindNames[kind], f.UnitsPerEm, lineFirst, px[0], py[0], px[1], py[1], px[2], py[2], px[3], py[3])
 			c.Sample(func() any { return desc })
 			c.Nontrivial()
 			c.Outcome(desc)
@@ -729,6 +740,16 @@ func c12BBoxCurves(r *run.Run) {
 			pdf := f.FontBBoxPDF()
 			if pdf.LLx > xlo*q+eps || pdf.LLy > ylo*q+eps || pdf.URx < xhi*q-eps || pdf.URy < yhi*q-eps {
 				c.Fail("C12.query", "FontBBoxPDF does not contain the outline", "FontBBoxPDF = %v, the curve extends over [%.3f, %.3f] x [%.3f, %.3f] design units, scale %v (%s)", pdf, xlo, xhi, ylo, yhi, q, desc)
+			}
+			if pdf.LLx < hxlo*q-1-eps || pdf.LLy < hylo*q-1-eps || pdf.URx > hxhi*q+1+eps || pdf.URy > hyhi*q+1+eps {
+				c.Fail("C12.query", "FontBBoxPDF larger than the control points", "FontBBoxPDF = %v, the control points span [%v, %v] x [%v, %v] design units, scale %v (%s)", pdf, hxlo, hxhi, hylo, hyhi, q, desc)
+			}
+			for i := 0; i < n; i++ {
+				gb := f.Outlines.GlyphBBoxPDF(f.FontMatrix, glyph.ID(i))
+				if gb.LLx > xlo*q+eps || gb.LLy > ylo*q+eps || gb.URx < xhi*q-eps || gb.URy < yhi*q-eps || gb.LLx < hxlo*q-1-eps || gb.LLy < hylo*q-1-eps || gb.URx > hxhi*q+1+eps || gb.URy > hyhi*q+1+eps {
+					c.Fail("C12.query", "GlyphBBoxPDF", "GlyphBBoxPDF(%d) = %v, the curve extends over [%.3f, %.3f] x [%.3f, %.3f] and its control points over [%v, %v] x [%v, %v] design units, scale %v (%s)", i, gb, xlo, xhi, ylo, yhi, hxlo, hxhi, hylo, hyhi, q, desc)
+					break
+				}
 			}
 			file, err := writeFont(f)
 			if err != nil {
